@@ -107,20 +107,19 @@ def run(ck):
 
     L.sync_connect_part(ck, rnd, 400 * (10 if thorough else 1), THEOREMS)
     L.reentrant_part(ck, rnd, 400 * (10 if thorough else 1), THEOREMS)
-    if L.NATIVE_READY:
-        L.reentrant_part(ck, rnd, 600 * (10 if thorough else 1), THEOREMS, native=True)
+    L.tree_part(ck, rnd, 600 * (10 if thorough else 1), THEOREMS)
 
     # ---- finding F-C10-1 (repaired by 7c12cf4): the witness is replayed on every run as a regression probe
-    observed, fev, fouts = L.probe_f_c10_1()
+    observed, fev, fhooks, fouts = L.probe_f_c10_1()
     what = ("close() called from the callback of a no-reply request while the queue is flushed on a new connection: a request "
             "is written after close() failed its Deferred (afkak/brokerclient.py _sendQueued)")
-    frp = {"kind": "finding witness", "theorem": "C10_reentrant_never_resent", "events": [["makethen", 1, ["close"]], ["make", 2, True], ["ok"]], "hooks": {},
-           "outputs_of_connect_event": [list(map(repr, o)) for o in fouts], "replay_op": "bc-hook"}
+    frp = {"kind": "finding witness", "theorem": "C10_reentrant_never_resent", "events": D.jsonable(fev), "hooks": fhooks, "policy": "const",
+           "outputs_of_connect_event": [list(map(repr, o)) for o in fouts], "replay_op": "bc-tree"}
     ck.finding("F-C10-1", observed, what, frp)
 
     L.exhaustive(ck, 7 if thorough else 6, "whole", WHICH, THEOREMS, rnd)
-    if L.NATIVE_READY:
-        L.exhaustive(ck, 7 if thorough else 5, "hook", WHICH, THEOREMS, rnd)
+    for hk in sorted(L.HOOK_TABLES):
+        L.exhaustive(ck, 7 if thorough else 5, hk, WHICH, THEOREMS, rnd)
     if thorough:
         L.exhaustive(ck, 7, "split", WHICH, THEOREMS, rnd)
         ck.coqchk(["AV.Props.C10"])
@@ -151,12 +150,8 @@ def replay(rp):
         return L.replay_bc(rp)
     if rp.get("replay_op") == "bc-hook":
         return L.replay_hook(rp)
-    if rp.get("replay_op") == "bc-hook-probe":
-        observed, fev, fouts = L.probe_f_c10_1()
-        print("make(1, no reply) with callback -> close(); make(2); connect succeeds.  outputs of the connect event now:")
-        print("  ", fouts)
-        print("request 2 written after close() failed its Deferred:", observed)
-        return 1 if observed else 0
+    if rp.get("replay_op") == "bc-tree":
+        return L.replay_tree(rp)
     if rp.get("replay_op") == "bc-sync":
         print("history with synchronous connect outcomes", rp.get("sync_outcomes"))
         print("implementation trace at the time:", rp.get("impl"))
